@@ -468,6 +468,22 @@ def _judge_lazyarg(case, ctx):
     if not got:
         return {'kind': 'prefix-shorter-than-on-list-input', 'got': len(got)}
     del view
+    if case['op'].startswith('addcolumn'):
+        # a column argument is consumed in step with the table: the first k rows cost O(k) rows of the argument too, whatever its
+        # length (membership arguments are different: `v in values` scans until it finds v)
+        pulls = {}
+        for k in (1, 5):
+            for n in (SHORT, LONG):
+                t, a = _src(n), _src(n)
+                v = LAZYARG[case['op']](t, LAZYARG_FORMS[case['form']](a))
+                for _ in range(2):        # two passes: the cost of a later pass is bounded in the same way
+                    _take(v, k)
+                pulls[(k, n)] = (t.data_pulls, a.data_pulls)
+                del v
+            ctx.seen('lazyarg-prefix-judged')
+            if pulls[(k, SHORT)] != pulls[(k, LONG)] or max(pulls[(k, LONG)]) > 2 * (k + 2) + 2:
+                return {'kind': 'pull-count-depends-on-source-length', 'what': 'rows pulled from (table, column argument) for the first %d rows, twice' % k,
+                        'short': pulls[(k, SHORT)], 'long': pulls[(k, LONG)]}
     return None
 
 
